@@ -213,6 +213,12 @@ impl Searcher {
             }
         }
 
+        // A node cut off by the clock has not seen all of its moves (or saw a child that was
+        // itself cut off): its score is meaningless and must not be cached for later searches
+        if self.timer.should_stop() {
+            return best_result;
+        }
+
         let bound = self.determine_bound(best_result.score, original_alpha, beta);
         self.store_in_transposition_table(board, &best_result, depth, bound);
 
